@@ -83,6 +83,70 @@ def targeted_corpus(macro, tier, seed, isa):
     return group_sort(W)
 
 
+# ------------------------------------------------------------------ R-ALIAS
+# Rule over the type-checked AST (clang-query): an integer SIMD register (__m128i/__m256i/__m512i, element type long long) must not
+# be accessed through a pointer to another integer type (int32_t*, int64_t* == long*, ...).  ISO C++ makes that access undefined
+# ([basic.lval]); GCC's type-based alias analysis exploits it at -O2 and above (the may_alias attribute of __m128i covers accesses
+# THROUGH __m128i, not accesses TO it), so integer results then depend on the optimisation level and on the compiler: replayed with
+# g++ 12 -O2: max(Tensor<int,3,3>{1,-2,3,-4,5,6,-7,-8,-9}) == 0, == 6 with -O1 or -fno-strict-aliasing.  clang's IR cannot show it
+# (clang gives vector types the char alias set), hence a source rule.  long long / char-like destinations are allowed.
+ALIAS_QUERY = """set bind-root false
+set output diag
+let NonAliasingInt qualType(isInteger(), unless(hasCanonicalType(qualType(anyOf(asString("long long"), asString("const long long"), asString("unsigned long long"), asString("const unsigned long long"), asString("char"), asString("const char"), asString("unsigned char"), asString("const unsigned char"), asString("signed char"), asString("const signed char"))))))
+let Pun explicitCastExpr(hasDestinationType(pointerType(pointee(NonAliasingInt))), hasSourceExpression(ignoringParenImpCasts(expr(hasType(pointsTo(typedefNameDecl(hasAnyName("__m128i", "__m256i", "__m512i"))))))))
+match functionDecl(isExpansionInFileMatching("@SCOPE@"), hasDescendant(Pun), unless(cxxMethodDecl())).bind("fn")
+match cxxMethodDecl(isExpansionInFileMatching("@SCOPE@"), hasDescendant(Pun), ofClass(cxxRecordDecl().bind("cls"))).bind("fn")
+"""
+
+
+def r_alias(tmp):
+    """returns (violations, obligations, ok, broken-reports); one obligation per (configuration, site)"""
+    src = os.path.join(tmp, 'ralias.cpp')
+    open(src, 'w').write('#include <Fastor/Fastor.h>\n#include "%s"\n' % os.path.join(VERIF, 'selftest', 'alias_positive.h'))
+    cfgs = [Config(isa) for isa in ('sse2', 'sse42', 'avx2', 'avx512')]
+    def one(job):
+        cfg, scope, name = job
+        q = os.path.join(tmp, 'qa_%s_%s.cq' % (cfg.key(), name))
+        open(q, 'w').write(ALIAS_QUERY.replace('@SCOPE@', scope))
+        p = run(['clang-query-14', '-f', q, src, '--'] + cfg.flags() + ['-I' + REPO, '-Wno-everything'])
+        locs = []
+        for blk in re.split(r'\nMatch #\d+:\n', '\n' + p.stdout)[1:]:
+            fn = re.search(r'^(/[^:\n]+):(\d+):\d+: note: "fn" binds here\n([^\n]*)', blk, re.M)
+            cl = re.search(r'^(/[^:\n]+):(\d+):\d+: note: "cls" binds here\n([^\n]*)', blk, re.M)
+            if fn:
+                ctext = ''
+                if cl:      # the class declaration may start with a bare 'template<>' line: take the declaration text up to the brace
+                    try:
+                        SL = open(cl.group(1)).read().splitlines()
+                        ctext = re.sub(r'\s+', ' ', ' '.join(SL[int(cl.group(2)) - 1:int(cl.group(2)) + 2])).split('{')[0].strip()[:90]
+                    except OSError:
+                        ctext = cl.group(3).strip()
+                locs.append((fn.group(1), ctext, re.sub(r'\s+', ' ', fn.group(3).strip())[:110]))
+        return cfg, name, locs, ('error:' in p.stderr or 'error:' in p.stdout), p.stdout[-200:] + p.stderr[-200:]
+    jobs = [(c, '/Fastor/', 'repo') for c in cfgs] + [(c, 'selftest/alias_positive', 'control') for c in cfgs]
+    sites, report, obl, ok = {}, [], 0, 0
+    with ThreadPoolExecutor(max_workers=JOBS) as ex:
+        for cfg, name, locs, errs, tail in ex.map(one, jobs):
+            if errs:
+                report.append('R-ALIAS: clang-query failed under %s: %s' % (cfg.key(), tail)); continue
+            if name == 'control':
+                obl += 1
+                if len(set(l[2] for l in locs)) == 2:
+                    ok += 1        # exactly the two planted violations, not the two allowed forms
+                else:
+                    report.append('R-ALIAS positive control matched %d functions under %s instead of 2 (rule broken)' % (len(locs), cfg.key()))
+                continue
+            # stable site key: file + enclosing class specialisation + signature text (line numbers shift with unrelated edits)
+            for f, cls, sig in sorted(set(locs)):
+                sites.setdefault('%s | %s | %s' % (f.replace(REPO.rstrip('/') + '/', ''), cls, sig), []).append(cfg.key())
+    viol = []
+    for key, cs in sorted(sites.items()):
+        obl += 1
+        viol.append(({'id': 'R-ALIAS', 'family': 'r-alias', 'params': {'site': key}, 'config': cs[0], 'isa': 'sse2'},
+                     {'kind': 'register-type-punning', 'where': key, 'detail': 'integer SIMD register accessed through a pointer to a different integer type (undefined under strict aliasing; g++ -O2 miscompiles) [%d configurations]' % len(cs)}))
+    return viol, obl, ok, report
+
+
 def acceptance(R, W, tier):
     """every program of the corpus must be accepted by the front end under every cell of ISA x standard x checks"""
     grid = []
@@ -128,6 +192,8 @@ def check(tier, seed):
     try:
         W = corpus(tier, seed)
         viol, obl, ok, ncells = acceptance(R, W, tier)
+        aviol, aobl, aok, arep = r_alias(R.tmp)
+        viol += aviol; obl += aobl; ok += aok; R.broken += arep
         cfgs = value_configs(tier)
         R.run_all(W, cfgs, chunk=60)
         tcache = {}
